@@ -5,12 +5,24 @@ from props.header_tasks import header_tasks, header_canaries
 
 ASSUMPTIONS = A01 + ["the induction over histories is exercised by the bounded layer: all operation-kind sequences up to length 2 "
                      "(quick) and sampled sequences up to length 4 (thorough) on generated plotfiles"]
-TRUSTED = T01 + ["CPython float/int text round trips"]
+TRUSTED = T01 + ["CPython float/int text round trips: float(repr(x)) == x, float(f'{x:.16e}') == x, int(str(i)) == i",
+                 "T-FS: a file written as chunks and read back has those chunks at the recorded tell() positions",
+                 "field names are opaque texts without newline or blank and differ from the literals the code compares them with ('all')"]
 KINDS = ["colander", "combine", "chef"]
 
 
 def tasks(tier):
-    return header_tasks("C14", tier)
+    # text side: writer/parser round trips on skeletons (S); binary side: the writers' worker contracts (U) - what a
+    # worker writes is, by T-FS, an OnDisk file again (canonical header + F-order payload at the returned offsets), i.e. the
+    # precondition of every reader/worker of the next operation: the one-step lemma of the history induction
+    from props.C05 import StrainWorker
+    from props.combine_kernels import ByBoxes, ByBinfile
+    from props.chef_kernels import UserPfileKnife
+    out = header_tasks("C14", tier)
+    for t in (StrainWorker(3), StrainWorker(2), ByBoxes(), ByBinfile(), UserPfileKnife(True)):
+        t.prop = "C14"
+        out.append(t)
+    return out
 
 
 def canaries(tier):
